@@ -14,6 +14,8 @@
 """This module contains a compiler that merges Gaussian operations into their symplectic forms,
 in a Gaussian and non-Gaussian circuit."""
 
+import networkx as nx
+
 import strawberryfields.program_utils as pu
 
 from .compiler import Compiler
@@ -324,6 +326,7 @@ class GaussianMerge(Compiler):
                         merged_gaussian_ops.append(predecessor)
 
         merged_gaussian_ops = self.remove_invalid_operations(op, merged_gaussian_ops)
+        merged_gaussian_ops = self.remove_bypassing_operations(op, merged_gaussian_ops)
 
         if self.is_redundant_merge(op, merged_gaussian_ops):
             return []
@@ -381,6 +384,31 @@ class GaussianMerge(Compiler):
                 if any(qumode in pre_op_qumode for qumode in get_qumodes_operated_upon(pre)):
                     return False
         return True
+
+    def remove_bypassing_operations(self, op, merged_gaussian_ops):
+        """
+        Helper function that removes operations from the merge list until no operation that is
+        not merged lies between two merged ones (it follows a merged operation and a merged
+        operation follows it): merging those would move gates past the operation in between.
+        """
+        pruned = True
+        while pruned:
+            pruned = False
+            block = [op] + merged_gaussian_ops
+            for later_op in block:
+                for between in nx.ancestors(self.DAG, later_op):
+                    if between in block:
+                        continue
+                    earlier = [b for b in block if nx.has_path(self.DAG, b, between)]
+                    if earlier:
+                        # keep op: drop the later operation, or the earlier ones if op is the later one
+                        for b in [later_op] if later_op is not op else earlier:
+                            merged_gaussian_ops.remove(b)
+                        pruned = True
+                        break
+                if pruned:
+                    break
+        return merged_gaussian_ops
 
     def remove_invalid_operations(self, op, merged_gaussian_ops):
         """
